@@ -123,7 +123,7 @@ func codeForEnum(typ *an.Enum) gen.Declaration {
 		}
 		names = append(names, lowerFirst(vName))
 		comments = append(comments, fmt.Sprintf("%q", v.Comment))
-		values = append(values, v.Const.Val().String())
+		values = append(values, gen.ConstLiteral(v.Const.Val()))
 		labels = append(labels, fmt.Sprintf("case %s.%s: return %q;", name, lowerFirst(vName), v.Comment))
 	}
 
